@@ -1,14 +1,21 @@
 """C10: samples are called independently; a pool equals the union of its reads.
 
 spec  : spec/SampleFlow/SampleFlow.tla       (per-locus data flow with rng / reads / haplotype list / labels explicit;
-                                              two-run product; ColumnIndependent, AssembleMonotone, PoolIsUnion,
-                                              OrderPermutesColumns)
+                                              the alignment-file layout (one file per sample / several samples in
+                                              one file) and the allele numbers explicit; two-run product;
+                                              ColumnIndependent, AssembleMonotone, PoolIsUnion, StorageIndependent,
+                                              UnitReadsAreUnion, OrderPermutesColumns)
         spec/SampleFlow/FlowRelations.tla    (the relations, shared by model and trace validator)
         spec/SampleFlow/TraceSampleFlow.tla  (every ordered pair of real runs -> verdict naming the failing clauses)
 bind  : spec -> code : every run configuration (sequence of units = plain samples / pools incl. a sample in two pools /
-                       physically merged samples) TLC enumerates is executed for real with call, call-exact and assemble;
+                       physically merged samples; base samples in one file each or all in one multi-sample file) TLC
+                       enumerates is executed for real with call, call-exact and assemble;
         code -> spec : each run is logged as (configuration, unit -> parsed column, ALT sequences) and TLC evaluates the
-                       model's predicted relations on every pair of logged runs.
+                       model's predicted relations on every pair of logged runs.  The same clauses decide the "wide"
+                       run log (tens of samples with private haplotypes: a locus with more ALT alleles than a narrow
+                       integer type can number; every sample alone, in a small run, in the joint run in two BAM orders
+                       and from one multi-sample file) - the model states the law on three samples
+                       (Mutant_narrowlabels.cfg shows that it notices numbers that do not fit).
 """
 import concurrent.futures as cf
 import copy
@@ -22,15 +29,18 @@ import time
 sys.path.insert(0, os.path.dirname(os.path.abspath(__file__)))
 from vlib import env, tlc, pool, isolate, datasets, vcflines
 from vlib.report import Check
+import c10_datasets
 
 SPEC = os.path.join(env.SPEC, "SampleFlow")
-MUTANTS = [("Mutant_seed.cfg", "ColumnIndependent"), ("Mutant_dedup.cfg", None), ("Mutant_firsthaps.cfg", "AssembleMonotone")]
+MUTANTS = [("Mutant_seed.cfg", ("ColumnIndependent",)), ("Mutant_dedup.cfg", None), ("Mutant_firsthaps.cfg", ("AssembleMonotone",)),
+           ("Mutant_onescan.cfg", ("ColumnIndependent", "PoolIsUnion", "StorageIndependent")),
+           ("Mutant_narrowlabels.cfg", ("AssembleMonotone",))]
 LOCI = ["L1_norm", "L2_nosnv", "L6_partial", "L8_multi", "L4_refabs2"]
 SCALARS = ["GQ", "SQ", "DP", "RCOUNT", "RCALLS", "MEC", "MECP", "GPM", "SPM", "MCI"]
 
 
 def unit_key(u):
-    return ("M" if u["merged"] else "P") + "".join(str(i) for i in u["m"])
+    return ("M" if u["merged"] else "P") + ("," if max(u["m"]) > 9 else "").join(str(i) for i in u["m"])
 
 
 def cfg_key(units):
@@ -53,6 +63,8 @@ def build_dataset(ck, name, seed, depth, deep):
         "M13": datasets.merge_bams(os.path.join(root, "M13.bam"), man, ["S1", "S3"], "M13"),
         "M123": datasets.merge_bams(os.path.join(root, "M123.bam"), man, ["S1", "S2", "S3"], "M123"),
     }
+    # layout "one": the three base samples in one multi-sample alignment file (read groups / SM values kept)
+    man["multi"] = c10_datasets.multi_sample_bam(os.path.join(root, "ALL.bam"), man)
     return man
 
 
@@ -70,18 +82,20 @@ def build_repo_dataset(ck):
     return man
 
 
-def materialise(man, units, tag, rnd_dir):
+def materialise(man, units, tag, rnd_dir, layout="sep"):
     """Configuration -> (argv fragment, expected column names, ploidy map, inbreeding file)."""
     sname = {i: man["samples"][i - 1]["name"] for i in (1, 2, 3)}
-    bam_of = {sname[i]: man["samples"][i - 1]["bam"] for i in (1, 2, 3)}
+    bam_of = {sname[i]: (man["multi"] if layout == "one" else man["samples"][i - 1]["bam"]) for i in (1, 2, 3)}
     bam_of.update(man["merged"])
     true_pool = any((not u["merged"]) and len(u["m"]) > 1 for u in units)
-    bams, names, pool_lines, ploidy = [], [], [], {}
+    bams, names, pool_lines, ploidy, wanted = [], [], [], {}, []
     for u in units:
         members = ["M" + "".join(map(str, u["m"]))] if u["merged"] else [sname[i] for i in u["m"]]
         for s in members:
             if bam_of[s] not in bams:
                 bams.append(bam_of[s])
+            if s not in wanted:
+                wanted.append(s)
         if true_pool:
             name = ("PM" if u["merged"] else "P") + "".join(map(str, u["m"]))
             for s in members:
@@ -93,6 +107,10 @@ def materialise(man, units, tag, rnd_dir):
     d = os.path.join(rnd_dir, tag)
     os.makedirs(d, exist_ok=True)
     argv = ["--bam"] + bams
+    if layout == "one" and not set(sname.values()) <= set(wanted):
+        # the multi-sample file holds samples that are not part of this run: the documented way to select samples
+        # of a file is the two-column list (sample <TAB> path); several samples then name the same path
+        argv = ["--bam", datasets.write_map(os.path.join(d, "bams.txt"), [(s, bam_of[s]) for s in wanted])]
     argv += ["--ploidy", datasets.write_map(os.path.join(d, "ploidy.txt"), sorted(ploidy.items()))]
     # per-unit inbreeding (a function of the unit's content only), used by the groups that ask for it
     inb = {n: round(0.05 * len(u["m"]) + 0.04 * min(u["m"]), 2) for n, u in zip(names, units)}
@@ -115,6 +133,9 @@ def materialise(man, units, tag, rnd_dir):
 
 
 # (program, extra arguments, group name, maximal number of units of the configurations run in this group)
+# thorough: every group runs every configuration in both alignment-file layouts; quick: the groups named in
+# QUICK_BOTH_LAYOUTS do (every model pair is still replayed by these), the others run the one-file-per-sample layout
+QUICK_BOTH_LAYOUTS = ("call-exact", "assemble")
 # G-length fields (GP / GL) only in the groups restricted to <= 2 units (a pool of three diploids with six
 # alleles has 462 genotypes per column)
 GROUPS_QUICK = [
@@ -128,6 +149,36 @@ GROUPS_THOROUGH = GROUPS_QUICK + [
     ("call-exact", ["--report", "AFP", "AOP", "--prior-frequencies", "AFP", "--filter-input-haplotypes", "AFP>=0.05"], "call-exact-filter", 3),
     ("assemble", ["--report", "AFP", "ACP", "--mcmc-chains", "2", "--inbreeding", "0.1"], "assemble-2chains", 2),
 ]
+
+
+def wide_runs(wman, group, cfgdir, steps):
+    """The runs of the wide regime (assemble, one locus): every sample alone, some of them also selected from the
+    multi-sample file, a small run, and the joint run in BAM order, in reverse BAM order and from the multi-sample file."""
+    samples = wman["samples"]
+    n = len(samples)
+    d = os.path.join(cfgdir, wman["name"])
+    os.makedirs(d, exist_ok=True)
+    common = ["--ploidy", "2", "--targets", wman["bed_run"], "--variants", wman["snv_vcf"], "--reference", wman["ref"],
+              "--mcmc-steps", str(steps), "--mcmc-burn", str(steps // 3), "--mcmc-seed", "9", "--report", "AFP"]
+
+    def one(idx, layout, bam_args):
+        units = [{"m": [i + 1], "merged": False} for i in idx]
+        return {"prog": "assemble", "group": group, "units": units, "key": (layout, cfg_key(units)), "layout": layout,
+                "argv": ["--bam"] + bam_args + common, "expected": [samples[i]["name"] for i in idx]}
+
+    out = []
+    everyone = list(range(n))
+    out.append(one(everyone, "sep", [samples[i]["bam"] for i in everyone]))
+    out.append(one(everyone[::-1], "sep", [samples[i]["bam"] for i in everyone[::-1]]))
+    out.append(one(everyone, "one", [wman["multi"]]))
+    small = everyone[-5:]
+    out.append(one(small, "sep", [samples[i]["bam"] for i in small]))
+    for i in everyone:
+        out.append(one([i], "sep", [samples[i]["bam"]]))
+        if i % 10 == 4:
+            lst = datasets.write_map(os.path.join(d, "only-%s.txt" % samples[i]["name"]), [(samples[i]["name"], wman["multi"])])
+            out.append(one([i], "one", [lst]))
+    return out
 
 
 def parse_run(text, prog):
@@ -188,20 +239,23 @@ def main():
         killed = 0
         for mc, inv in MUTANTS:
             m = tlc.run(SPEC, "SampleFlow", mc)
-            if m.violated is None or (inv and m.violated != inv):
+            if m.violated is None or (inv and m.violated not in inv):
                 ck.machinery_failure("mutant spec %s not killed (%s)" % (mc, m.violated))
             killed += 1
         ck.note("mutant_specs_killed", killed)
     except tlc.TLCError as e:
         ck.machinery_failure(str(e))
-    configs = {}
+    configs = {}        # (layout, unit keys) -> units
     for p in pairs:
         for side in ("a", "b"):
-            configs[cfg_key(p[side])] = p[side]
-    model_pairs = {(cfg_key(p["a"]), cfg_key(p["b"])) for p in pairs if cfg_key(p["a"]) != cfg_key(p["b"])}
+            configs[(p["l" + side], cfg_key(p[side]))] = p[side]
+    model_pairs = {((p["la"], cfg_key(p["a"])), (p["lb"], cfg_key(p["b"]))) for p in pairs
+                   if (p["la"], cfg_key(p["a"])) != (p["lb"], cfg_key(p["b"]))}
     ck.note("model_run_pairs", len(pairs))
     ck.note("model_configurations", len(configs))
 
+    phases = {"model_s": round(time.time() - ck.t0, 1)}
+    tp = time.time()
     # ---- datasets and runs --------------------------------------------------------------
     dsets = [build_dataset(ck, "F1", ck.seed * 31 + 1, depth=10, deep=1)]
     if tier == "thorough":
@@ -215,11 +269,13 @@ def main():
         for prog, extra, gname, maxlen in groups:
             if man["name"] == "F2" and gname not in ("call-prior", "assemble"):
                 continue
-            for key in sorted(configs):
-                units = configs[key]
-                if len(units) > maxlen:
+            for ckey in sorted(configs):
+                layout, key = ckey
+                units = configs[ckey]
+                if len(units) > maxlen or (tier == "quick" and layout != "sep" and gname not in QUICK_BOTH_LAYOUTS):
                     continue
-                argv, names, ploidy, inbfile = materialise(man, units, "%s-%s" % (man["name"], "_".join(key)), cfgdir)
+                argv, names, ploidy, inbfile = materialise(man, units, "%s-%s-%s" % (man["name"], layout, "_".join(key)), cfgdir,
+                                                           layout)
                 argv += ["--reference", man["ref"]]
                 if prog != "call-exact":
                     argv += ["--mcmc-steps", "300", "--mcmc-burn", "100", "--mcmc-seed", "9"]
@@ -227,14 +283,15 @@ def main():
                     argv += ["--targets", man["bed_run"], "--variants", man["snv_vcf"]]
                 else:
                     argv += ["--haplotypes", man["hap_vcf"]]
-                runs.append({"prog": prog, "group": man["name"] + "/" + gname, "units": units, "key": key,
+                runs.append({"prog": prog, "group": man["name"] + "/" + gname, "units": units, "key": ckey, "layout": layout,
                              "argv": argv + [inbfile if x == "@INBREEDING" else x for x in extra],
                              "expected": names})
     # the repository's own data (happy path): the first three groups
     for prog, extra, gname, maxlen in GROUPS_QUICK[:3]:
-        for key in sorted(configs):
-            units = configs[key]
-            if len(units) > 2:
+        for ckey in sorted(configs):
+            layout, key = ckey
+            units = configs[ckey]
+            if len(units) > 2 or layout != "sep":
                 continue
             if tier == "quick" and len(units) > 1 and not any(len(u["m"]) > 1 for u in units):
                 continue    # quick: singles, and every configuration with a pool / merged sample
@@ -245,11 +302,22 @@ def main():
                 argv += ["--targets", repo_man["bed_run"], "--variants", repo_man["snv_vcf"], "--reference", repo_man["ref"]]
             else:
                 argv += ["--haplotypes", repo_man["hap_vcf"]]
-            runs.append({"prog": prog, "group": "simple/" + gname, "units": units, "key": key,
+            runs.append({"prog": prog, "group": "simple/" + gname, "units": units, "key": ckey, "layout": layout,
                          "argv": argv + [inbfile if x == "@INBREEDING" else x for x in extra], "expected": names})
+    # the wide regime: loci with more ALT alleles than a narrow integer type can number
+    wide = [(70, 8, 127)] if tier == "quick" else [(70, 8, 127), (140, 9, 255)]
+    wide_groups = {}
+    for n_samples, n_snvs, more_than in wide:
+        wname = "W%d" % n_samples
+        wroot = os.path.join(ck.wd, "data", wname)
+        shutil.rmtree(wroot, ignore_errors=True)
+        wman = c10_datasets.make_wide_population(wroot, ck.seed * 31 + n_samples, n_samples, n_snvs, name=wname)
+        wide_groups[wname + "/assemble"] = more_than
+        runs.extend(wide_runs(wman, wname + "/assemble", cfgdir, steps=300 if tier == "quick" else 600))
     ck.note("program_runs", len(runs))
     order = list(range(len(runs)))
     random.Random(ck.seed).shuffle(order)
+    phases["datasets_s"] = round(time.time() - tp, 1)
     t0 = time.time()
     try:
         flat = isolate.map_runs("impl.c10", [{"op": "run", "prog": runs[i]["prog"], "argv": runs[i]["argv"]} for i in order])
@@ -276,8 +344,17 @@ def main():
             for l in loci:
                 l["cols"] = [l["cols"][x] for x in perm]
         by_group.setdefault(run["group"], []).append(
-            {"prog": run["prog"], "group": run["group"], "units": run["units"], "names": names, "expected": run["expected"],
+            {"prog": run["prog"], "group": run["group"], "units": run["units"], "layout": run["layout"], "names": names,
+             "expected": run["expected"],
              "loci": loci, "_argv": run["argv"], "_key": run["key"]})
+
+    # the wide regime must have been reached: the joint runs list more ALT alleles than the narrow type numbers
+    for gname, more_than in sorted(wide_groups.items()):
+        joint = [x for x in by_group.get(gname, []) if len(x["units"]) > 5]
+        widths = [max(len(l["alts"]) for l in x["loci"]) for x in joint]
+        ck.note("alt_alleles_of_joint_runs_" + gname.split("/")[0], widths)
+        if not ck.violations and (not joint or min(widths) <= more_than):
+            ck.machinery_failure("wide regime %s not reached: ALT alleles of the joint runs %s (need > %d)" % (gname, widths, more_than))
 
     def validate(gname, logged, label):
         path = os.path.join(ck.wd, "trace-%s.json" % label)
@@ -287,6 +364,7 @@ def main():
                     name="TraceSampleFlow-" + label, timeout=2400)
         return gname, logged, t
 
+    tp = time.time()
     jobs = [(g, lg, g.replace("/", "_")) for g, lg in sorted(by_group.items())]
     results = []
     try:
@@ -318,27 +396,32 @@ def main():
                 cb = sorted(tuple(u["m"]) for u in b["units"])
                 rel = ("same-units" if ca == cb else "subset") + (
                     "+pool-vs-merged" if {unit_key(u) for u in a["units"]} - {unit_key(u) for u in b["units"]} and
-                    any(u["merged"] for u in a["units"] + b["units"]) else "")
+                    any(u["merged"] for u in a["units"] + b["units"]) else "") + (
+                    "+other-file-layout" if a["layout"] != b["layout"] else "")
                 for c in p["clause"]:
                     grouped.setdefault((c, rel), []).append((a, b))
         for (c, rel), lst in grouped.items():
             a, b = lst[0]
             ck.violation("trace-reject",
                          {"group": gname, "clause": c, "relation": rel, "n_pairs": len(lst), "run_A": a["_argv"], "run_B": b["_argv"],
-                          "units_A": list(a["_key"]), "units_B": list(b["_key"])},
+                          "units_A": list(a["_key"][1])[:8], "layout_A": a["layout"], "n_units_A": len(a["units"]),
+                          "units_B": list(b["_key"][1])[:8], "layout_B": b["layout"], "n_units_B": len(b["units"])},
                          key={"site": a["prog"], "clause": c, "relation": rel, "group": gname.split("/", 1)[1]})
         if not sample_done and logged:
             x = logged[len(logged) // 2]
-            ck.sample({"kind": "logged-run", "group": gname, "units": list(x["_key"]), "argv": x["_argv"], "columns": x["names"],
+            ck.sample({"kind": "logged-run", "group": gname, "units": list(x["_key"][1]), "layout": x["layout"], "argv": x["_argv"], "columns": x["names"],
                        "first_locus": {"id": x["loci"][0]["id"], "alts": x["loci"][0]["alts"], "seqs": [c["seqs"] for c in x["loci"][0]["cols"]]}})
             sample_done = True
     ck.note("related_run_pairs_validated", total_related)
     ck.note("model_pairs_with_both_runs_logged", len(covered_pairs))
+    phases["trace_validation_s"] = round(time.time() - tp, 1)
+    tp = time.time()
     if model_pairs - covered_pairs and not ck.violations:
         ck.machinery_failure("%d model pairs were not replayed" % len(model_pairs - covered_pairs))
     if pairs:
         p = pairs[len(pairs) // 2]
-        ck.sample({"kind": "model-run-pair", "A": list(cfg_key(p["a"])), "B": list(cfg_key(p["b"]))})
+        ck.sample({"kind": "model-run-pair", "A": list(cfg_key(p["a"])), "layout_A": p["la"], "B": list(cfg_key(p["b"])),
+                   "layout_B": p["lb"]})
 
     # how often assemble actually turned "." into a named allele (non-vacuity of AssembleMonotone)
     gained = 0
@@ -348,7 +431,7 @@ def main():
         alone = {x["_key"]: x for x in logged if len(x["units"]) == 1}
         for x in logged:
             for ci, u in enumerate(x["units"]):
-                k1 = (unit_key(u),)
+                k1 = (x["layout"], (unit_key(u),))
                 if len(x["units"]) > 1 and k1 in alone:
                     for l, la in zip(x["loci"], alone[k1]["loci"]):
                         if la["cols"][0]["seqs"].count(".") > l["cols"][ci]["seqs"].count("."):
@@ -357,6 +440,11 @@ def main():
 
     # ---- binding demonstration: corrupted run logs must be rejected -------------------------
     demo = 0
+    demo_jobs = []
+
+    def content(x):
+        return {tuple(u["m"]) for u in x["units"]}
+
     for gname, logged, t in results:
         if len(logged) < 3:
             continue
@@ -364,8 +452,10 @@ def main():
         multi = [x for x in logged if len(x["units"]) > 1]
         if not multi:
             continue
-        bad = copy.deepcopy(logged)
-        target = next(x for x in bad if len(x["units"]) > 1)
+        # the corrupted run and every logged run the model relates it to (configurations it contains / is contained in)
+        first = multi[0]
+        bad = copy.deepcopy([x for x in logged if content(x) <= content(first) or content(first) <= content(x)])
+        target = next(x for x in bad if x["_key"] == first["_key"])
         expect = None
         if prog == "assemble":
             col = target["loci"][0]["cols"][0]
@@ -383,16 +473,24 @@ def main():
                 else:
                     v["m"] += 2000
                 expect = "ColumnIndependent"
-        if expect is None:
+        if expect is None or len(bad) < 2:
             continue
-        _, _, tbad = validate(gname, bad, gname.replace("/", "_") + "-corrupt")
+        demo_jobs.append((gname, bad, gname.replace("/", "_") + "-corrupt", expect))
+    try:
+        with cf.ThreadPoolExecutor(max_workers=max(1, min(env.NCPU // 2, 8))) as ex:
+            demo_out = list(ex.map(lambda j: validate(*j[:3]), demo_jobs))
+    except tlc.TLCError as e:
+        ck.machinery_failure(str(e))
+    for (gname, bad, label, expect), (_, _, tbad) in zip(demo_jobs, demo_out):
         got = {c for p in tbad.printed if "reject" in p for c in p["clause"]}
-        if expect not in got and "PoolIsUnion" not in got:
+        if expect not in got and "PoolIsUnion" not in got and "StorageIndependent" not in got:
             ck.machinery_failure("corrupted run log (%s) was not rejected for %s: %s" % (gname, expect, got))
         demo += 1
     if demo == 0:
         ck.machinery_failure("no corrupted-trace demonstration could be built")
     ck.note("corrupted_traces_rejected", demo)
+    phases["corrupted_logs_s"] = round(time.time() - tp, 1)
+    ck.note("phase_wall_s", phases)
     ck.exhaustive = True
     ck.assumptions = [
         "TLC and the CommunityModules Json/IOUtils operators are correct",
